@@ -607,29 +607,26 @@ func (server *Server) registerCoreExecutors() {
 			if !isOption {
 				break
 			}
+			param, err = args.NextString()
 		}
 		if err != nil {
 			return nil, newMissingArgumentError(cmd, "score", err)
 		}
 
 		members := []*ZSetMember{}
-		member, err := args.NextString()
-		if err != nil {
-			err = newMissingArgumentError(cmd, "member", err)
-		}
-		for err == nil {
+		for {
+			member, err := nextStringArgument(cmd, "member", args)
+			if err != nil {
+				return nil, err
+			}
 			members = append(members, &ZSetMember{Score: score, Member: member})
 			score, err = nextScoreArgument(cmd, "score", args)
 			if err != nil {
-				break
+				if errors.Is(err, proto.ErrEOM) {
+					break
+				}
+				return nil, err
 			}
-			member, err = nextStringArgument(cmd, "member", args)
-			if err != nil {
-				break
-			}
-		}
-		if !errors.Is(err, proto.ErrEOM) {
-			return nil, err
 		}
 
 		return server.userCommandHandler.ZAdd(conn, key, members, opt)
